@@ -22,6 +22,9 @@ CID = "C18"
 OFFM = [0, 1, 7, 8, 56, 63]
 SIZES = [0, 1, 7, 8, 63, 64, 65, 127, 128, 129, 200]
 EQ_SIZES = [0, 1, 63, 64, 65, 127, 128, 129, 192, 256]
+# operations whose result is a yes/no answer: the evidence tallies how often each answer was observed
+PREDICATES = ("get", "eq", "cmp", "allone", "allzero", "anydef", "alldef", "alldefns", "cmpval", "eqdef", "canrep", "eqbytes")
+PRED_SIZES = [1, 7, 63, 64, 65, 127, 128, 129, 130]
 WORK = V.BUILD / "c18"
 
 # Deviations of the real library from the array-of-bits reading that were confirmed while this check
@@ -127,6 +130,7 @@ class Gen:
         self.nseq = 0
         self.nontrivial = set()
         self.samples = []
+        self.pred_class = {}
 
     # ---- directed choices ----
     def off_in(self, lo, hi):
@@ -190,6 +194,8 @@ class Gen:
             self.hist[c] += 1
         if nontrivial:
             self.nontrivial.add((self.np, tuple(self.sz), line))
+        if line.split()[0] in PREDICATES and classes:
+            self.pred_class[(self.sid, len(self.cur) - 1)] = classes[0]
 
     # ---- single operations (each returns False if not applicable at the current sizes) ----
     def op_resize(self, r=None, n=None):
@@ -592,10 +598,133 @@ class Gen:
     def op_eqd(self):
         return self.eq_directed()
 
+    # ---- directed family for the range predicates: make the range uniform (or an equal copy), then flip
+    #      at most one bit at the head / first and last bit of a whole word / tail / just outside ----
+    @staticmethod
+    def pred_shape(start, n):
+        sf, ef = (start + 63) // 64 * 64, (start + n) // 64 * 64
+        if n == 0:
+            return "empty"
+        if sf < ef:
+            return ("head+" if start < sf else "") + "whole" + ("+tail" if ef < start + n else "")
+        return "inside-one-word" if start // 64 == (start + n - 1) // 64 else "two-partial-words"
+
+    @staticmethod
+    def pred_positions(start, n, size):
+        sf, ef = (start + 63) // 64 * 64, (start + n) // 64 * 64
+        hi = start + n - 1
+        pos = []
+        if n:
+            if sf < ef:
+                if start < sf:
+                    pos += [("head", start), ("head", sf - 1)]
+                pos += [("whole", sf), ("whole", sf + 63), ("whole", ef - 64), ("whole", ef - 1)]
+                if ef <= hi:
+                    pos += [("tail", ef), ("tail", hi)]
+            else:
+                pos += [("first", start), ("last", hi), ("mid", (start + hi) // 2)]
+        if start > 0:
+            pos.append(("outside-below", start - 1))
+        if start + n < size:
+            pos.append(("outside-above", start + n))
+        seen, out = set(), []
+        for w, q in pos:
+            if q not in seen:
+                seen.add(q)
+                out.append((w, q))
+        return out
+
+    def pred_unary(self, pred, r, start, n):
+        size = self.sz[r]
+        if start + n > size:
+            return False
+        if pred == "alldefns" and not (start % 64 + n <= 64 and start // 64 < (size + 63) // 64):
+            return False
+        val = 1 if pred in ("allone", "alldef", "alldefns") else 0
+        p = 1 if pred in ("anydef", "alldef", "alldefns") else self.rng.randrange(self.np)
+        shape = self.pred_shape(start, n)
+
+        def call(tag):
+            line = f"{pred} {r} {start} {n}" if pred in ("anydef", "alldef", "alldefns") else f"{pred} {r} {p} {start} {n}"
+            self.emit(line, [f"pred:{pred}:{shape}", f"pred:{pred}:{tag}"], n > 0)
+        self.emit(f"setrange {r} {p} 0 {size} {1 - val}", ["pred:prepare"], False)
+        self.emit(f"setrange {r} {p} {start} {n} {val}", ["pred:prepare"], False)
+        call("uniform")
+        for where, q in self.pred_positions(start, n, size):
+            self.emit(f"toggle {r} {p} {q}", ["pred:prepare"], False)
+            call("flip-" + where)
+            self.emit(f"toggle {r} {p} {q}", ["pred:prepare"], False)
+        return True
+
+    def pred_binary(self, pred, ra, sa, rb, sb, n):
+        if sa + n > self.sz[ra] or sb + n > self.sz[rb] or ra == rb:
+            return False
+        shape = self.pred_shape(sa, n)
+
+        def call(tag):
+            if pred == "cmp":
+                lines = [f"cmp {rb} {sb} {ra} {sa} {n}"]
+            elif pred == "canrep":
+                lines = [f"canrep {ra} {rb} {sa} {sb} {n}", f"canrep {rb} {ra} {sb} {sa} {n}"]
+            else:
+                lines = [f"{pred} {ra} {sa} {rb} {sb} {n}"]
+            for l in lines:
+                self.emit(l, [f"pred:{pred}:{shape}", f"pred:{pred}:{tag}"], n > 0)
+        if self.rng.random() < 0.6:
+            self.emit(f"setrange {ra} 1 {sa} {n} 1", ["pred:prepare"], False)      # mostly defined, so that value bits matter
+        self.emit(f"copy {rb} {sb} {ra} {sa} {n}", ["pred:prepare"], False)
+        call("equal-copy")
+        k = 0
+        for where, q in self.pred_positions(sa, n, self.sz[ra]):
+            qb = sb + (q - sa)
+            if not 0 <= qb < self.sz[rb]:
+                continue
+            p = k % 2 if self.np == 2 else k % 4
+            k += 1
+            self.emit(f"toggle {rb} {p} {qb}", ["pred:prepare"], False)
+            call("flip-" + where)
+            self.emit(f"toggle {rb} {p} {qb}", ["pred:prepare"], False)
+        return True
+
+    def op_pred(self):
+        pred = self.rng.choice(["allone", "allzero", "anydef", "alldef", "alldefns", "cmp", "cmpval", "eqdef", "canrep"])
+        n = self.rng.choice(PRED_SIZES + [0, 8, 200])
+        if pred in ("cmp", "cmpval", "eqdef", "canrep"):
+            ra, rb = self.two()
+            n = min(n, self.sz[ra], self.sz[rb])
+            return self.pred_binary(pred, ra, self.off_in(0, self.sz[ra] - n), rb, self.off_in(0, self.sz[rb] - n), n)
+        r = self.rng.randrange(self.nr)
+        if pred == "alldefns":
+            n = min(n, 64)
+        n = min(n, self.sz[r])
+        start = self.off_in(0, self.sz[r] - n)
+        if pred == "alldefns":
+            start = start // 64 * 64 + min(start % 64, 64 - n)
+        return self.pred_unary(pred, r, start, n)
+
+    def pred_sequences(self, np_, tag):
+        """every predicate x (start mod 64 in OFFM) x PRED_SIZES, registers of 400 bits"""
+        for pred in ["allone", "allzero", "anydef", "alldef", "alldefns", "cmp", "cmpval", "eqdef", "canrep"]:
+            self.start(f"pred{tag}_{pred}", np_, 2)
+            for r in range(2):
+                self.op_resize(r, 400)
+                self.fill(r)
+            for m in OFFM:
+                for n in PRED_SIZES:
+                    if pred in ("cmp", "cmpval", "eqdef", "canrep"):
+                        sb = 64 + OFFM[(OFFM.index(m) + 2) % len(OFFM)]
+                        self.pred_binary(pred, 0, 64 * (m % 2) + m, 1, sb, n)
+                    elif pred == "alldefns":
+                        if m + n <= 64:
+                            self.pred_unary(pred, 0, 128 + m, n)
+                    else:
+                        self.pred_unary(pred, 0, 64 * (m % 2) + m, n)
+            self.end()
+
     KINDS = [("op_bit", 10), ("op_setrange", 10), ("op_word", 14), ("op_copy", 18), ("op_exts", 6),
              ("op_inss", 6), ("op_append", 4), ("op_eq", 3), ("op_all", 8), ("op_canrep", 3),
              ("op_big", 10), ("op_resize", 5), ("op_text", 5), ("op_object", 6), ("op_view", 10),
-             ("op_bytes", 6), ("op_eqd", 3)]
+             ("op_bytes", 6), ("op_eqd", 3), ("op_pred", 8)]
 
     def random_op(self):
         names = [k for k, w in self.KINDS for _ in range(w)]
@@ -1148,6 +1277,9 @@ def main():
             pos = sorted({q for b in {0, nblk // 2, max(nblk - 1, 0)} for q in (64 * b, 64 * b + 1, 64 * b + 62, 64 * b + 63) if q < size} | ({size - 1} if size else set()))
             g.eq_directed(size, pos)
             g.end()
+    # range predicates: uniform range / equal copy, then at most one flipped bit at head / whole-word borders / tail / outside
+    g.pred_sequences(2, "2")
+    g.pred_sequences(4, "4")
     exhaustive_grid = False
     if tier == "thorough":
         # every single bit of every plane as the only difference
@@ -1231,6 +1363,23 @@ def main():
         tie_broken = f"the real container disagrees with the bit-array oracle of the harness ({len(oracle_mm)}+ operations)"
     if rc1 != 0 and not tie_broken:
         tie_broken = f"harness exited with {rc1}: {err1[-300:]}"
+    # how often every yes/no operation answered yes / no on the real library, per operation and per
+    # directed class (range shape): a predicate that has become constant shows up here
+    answers, answers_cls = {}, {}
+    with open(out_cpp) as f:
+        for l in f:
+            t = l.split(" ", 3)
+            if len(t) >= 3 and t[1] in PREDICATES and t[2] in ("0", "1"):
+                answers.setdefault(t[1], Counter())[t[2]] += 1
+                sq, _, ix = t[0].partition(":")
+                c = g.pred_class.get((sq, int(ix))) if ix.isdigit() else None
+                if c and c.startswith("pred:"):
+                    answers_cls.setdefault(c, Counter())[t[2]] += 1
+    rep.cov["predicate_answers"] = {k: dict(yes=v["1"], no=v["0"]) for k, v in sorted(answers.items())}
+    rep.cov["predicate_answers_by_range_shape"] = {k: dict(yes=v["1"], no=v["0"]) for k, v in sorted(answers_cls.items())}
+    constant = [k for k, v in answers.items() if not (v["1"] and v["0"])] + \
+               [k for k, v in answers_cls.items() if not (v["1"] and v["0"]) and not k.endswith(":empty")]
+    rep.cov["constant_predicates"] = sorted(constant)
     exc_lines = 0
     with open(out_cpp) as f:
         for l in f:
@@ -1297,6 +1446,9 @@ def main():
                                ops=fd["probe"] or ["build/harness/C18_bvs probe"],
                                mismatches=pm[:3], probe_output=probe_out.strip().splitlines()[-1:] if fd["probe"] is None else None),
                           tag=fid)
+
+    if constant and res["ok"] and not tie_broken:
+        V.infra_error("generator weakness: yes/no operations with a constant answer in this run: " + ", ".join(sorted(constant)))
 
     # ---- search mode ----
     if not res["ok"] or tie_broken:
